@@ -55,7 +55,8 @@ let () =
             (match fields (rest tok 1) with
              | [id; from] ->
                let sz = match Hashtbl.find_opt live from with Some (`M n) -> n | Some (`W n) -> n | _ -> -1 in
-               let t = if Hashtbl.mem live id || sz <= 0 then "NUL" else "ok" in
+               (* cloning an empty memory raises: malloc(0) returns a null handle and setDtype asserts *)
+               let t = if Hashtbl.mem live id || sz < 0 then "NUL" else if sz = 0 then "ERR" else "ok" in
                if t = "ok" then Hashtbl.replace live id (`M sz);
                DClone (zi id, zi from), t
              | _ -> failwith "bad c")
